@@ -127,6 +127,8 @@ func translateFunc(fi *funcInfo) { translateFuncMode(fi, false) }
 func translateFuncChk(fi *funcInfo) { translateFuncMode(fi, true) }
 
 func translateFuncMode(fi *funcInfo, chk bool) {
+	curOwn = ownModule[fi.key]
+	defer func() { curOwn = "" }()
 	curLimb = limbMode[fi.key]
 	defer func() { curLimb = false }()
 	defer func() {
@@ -251,6 +253,9 @@ func translateFuncMode(fi *funcInfo, chk bool) {
 	if chk {
 		mk += "#chk"
 	}
+	if curOwn != "" {
+		mk = "own:" + curOwn
+	}
 	defsByPkg[mk] = append(defsByPkg[mk], d)
 	defByName[lname] = d
 }
@@ -267,7 +272,11 @@ func translateGlobal(k string) string {
 	pre := t.flush()
 	text := fmt.Sprintf("/-- package-level `var %s` of %s. -/\ndef %s : %s :=\n%s\n", g.v.Name(), g.pkgdir, lean, leanType(g.v.Type()), indent(pre+val, 1))
 	d := &leanDef{name: lean, text: text, deps: t.deps, pos: g.val.Pos()}
-	defsByPkg[modKey(g.pkgdir, curLimb)] = append(defsByPkg[modKey(g.pkgdir, curLimb)], d)
+	gk := modKey(g.pkgdir, curLimb)
+	if curOwn != "" {
+		gk = "own:" + curOwn
+	}
+	defsByPkg[gk] = append(defsByPkg[gk], d)
 	defByName[lean] = d
 	return lean
 }
@@ -419,6 +428,18 @@ func main() {
 		}
 		b.WriteString("end I3.Gen.Go\n")
 		writeIfChanged(filepath.Join(out, pkgModule[pd]+".lean"), b.String())
+	}
+	// functions with a module of their own (ordinary + checked definition together)
+	for _, mod := range []string{"GoPoseidonInit"} {
+		var b strings.Builder
+		b.WriteString("-- GENERATED by tools/gengo (T6) — do not edit\n")
+		b.WriteString("import I3.Exec.Go\nimport I3.Exec.GoExt\nimport I3.Gen.GoPoseidon\nimport I3.Gen.GoChkPoseidon\n")
+		b.WriteString("set_option linter.unusedVariables false\nset_option maxRecDepth 10000000\nnamespace I3.Gen.Go\n\n")
+		for _, d := range topo(defsByPkg["own:"+mod]) {
+			b.WriteString(d.text + "\n")
+		}
+		b.WriteString("end I3.Gen.Go\n")
+		writeIfChanged(filepath.Join(out, mod+".lean"), b.String())
 	}
 	// checked variants: one module per value-mode module and per limb-mode module
 	allNormal := []string{}
